@@ -1663,6 +1663,9 @@ class GroupBy:
 
         return_polars = self._values_is_polars(type_list)
 
+        # the EMA kernels need one global code per row, not chunk-local codes
+        self._unify_group_key_chunks()
+
         if index_by_groups:
             indexer = self._group_sort_indexer
             result_index = self._build_group_sorted_index(common_index)
